@@ -7,10 +7,11 @@ A case is a JSON-able dict
 recorded events.  Environment actions that are not possible in the state the child is in (an
 exit command for a child that is already dead or stopped) are skipped and not logged.
 """
-import itertools, os, resource, signal, sys, traceback
+import gc, itertools, os, resource, signal, sys, traceback
 from . import lifeworld as L
 
 WORKDIR = None
+_ncases = 0
 
 
 class CaseTimeout(BaseException):
@@ -28,6 +29,7 @@ def init_worker(workdir):
     resource.setrlimit(resource.RLIMIT_CORE, (0, 0))
     L.install()
     signal.signal(signal.SIGALRM, _on_alarm)
+    gc.disable()          # deterministic finalisation: reference counting only, explicit collections
 
 
 def make(case):
@@ -67,6 +69,10 @@ def op_possible(w, it):
 
 def execute(case):
     """-> {'ev': [...]} or {'error': text}"""
+    global _ncases
+    _ncases += 1
+    if _ncases % 50 == 0:
+        gc.collect()      # between cases, before the baseline of the next one is taken
     if case['tr'] == 'run':
         return execute_run(case)
     w = None
@@ -157,6 +163,13 @@ def execute_run(case):
                 ret = 'TIMEOUT'
                 raise
             finally:
+                # the end of the stream was seen because the child is exiting: let it finish (it
+                # becomes a zombie, or has been reaped by the code under test already)
+                if not w.reaped_seen:
+                    try:
+                        os.waitid(os.P_PID, w.pid, os.WEXITED | os.WNOWAIT)
+                    except OSError:
+                        pass
                 ev = {'e': 'op', 'op': 'Read', 'arg': 0, 'ret': ret, 'rv': -1, 'final': False, 'exc': ret != 'None'}
                 ev.update(w.observe())
                 ev['touched'] = False
